@@ -146,9 +146,32 @@ class SessionProperty:
 
 
 class C04(SessionProperty):
+    """Edit histories on literal documents plus (one case in seven) histories on reference-laden programs, where the
+    addressed binding of a write-through edit is the one the reference model names."""
+
+    def generate(self, seed: int, tier: str) -> dict:
+        if Streams(seed)("kind").random() < 0.15:
+            case = PROPERTIES["C11"].generate(seed, tier)
+            case.update(prop="C04", kind="reference")
+            return case
+        return SessionProperty.generate(self, seed, tier)
+
     def execute(self, case: dict):
         steps = session.run_history(case["doc"], case["ops"])
         counters: dict = {}
+        if case.get("kind") == "reference":
+            # which binding a write-through edit addresses is C11's question; that the edit lands on *some other*
+            # binding than the reference and its definition is C04's ("everything outside the addressed binding")
+            viols = []
+            for v in session.oracle_c11(steps, counters):
+                if v.oracle == "C11.wrong_binding" and v.facts.get("symptom") == "other_binding":
+                    viols.append(Violation("C04.reference_edit_elsewhere", v.message, v.step, dict(v.facts, reference_case=True)))
+                else:
+                    counters["c11_domain:" + v.oracle] = counters.get("c11_domain:" + v.oracle, 0) + 1
+            stats = session_stats(case, steps)
+            stats.update({"ref:" + k: n for k, n in counters.items()})
+            stats["reference_cases"] = 1
+            return viols, stats, state_key(steps)
         viols = session.oracle_c04(steps, counters)
         stats = session_stats(case, steps)
         stats.update(counters)
